@@ -74,8 +74,13 @@ class Base(BaseException):
     pass
 
 
+_SHARED = {}
+
+
 def mk(pairs):
-    return [TYPES[t](v=v) for t, v in pairs]
+    """state instances for (type, value) pairs - the SAME immutable instance every time a pair recurs, across scopes,
+    tasks and runs (as module-level constants are used by applications): nothing may depend on instance identity"""
+    return [_SHARED.setdefault((t, v), TYPES[t](v=v)) for t, v in pairs]
 
 
 class _Capture(logging.Handler):
